@@ -275,10 +275,12 @@ def run(ctx: Ctx):
                    "no narrowing of a non-integral result", nontrivial=False)
         narrow = [norm(n) for n in ast.walk(pf.node) if isinstance(n, ast.BinOp) and isinstance(n.op, ast.Mult)
                   and getattr(n, "ctype", "") in ("int", "long") and not isinstance(n.right, ast.Constant) and not isinstance(n.left, ast.Constant)]
-        if narrow:
-            ctx.ob("R13.2", f"{pf.name}: C int products {narrow}", f"{os.path.relpath(pm.path, repo.root)}:{pf.lineno}", None,
-                   "slot index x resolution is computed in C int: exact only while the horizon stays below 2^31 seconds (about 68 years)",
-                   info=True)
+        ctx.ob("R13.2", f"{pf.name}: products of C integers are computed in 64 bit" + (f" -- not {narrow}" if narrow else ""),
+               f"{os.path.relpath(pm.path, repo.root)}:{pf.lineno}", not narrow,
+               "no product of two C ints" if not narrow else
+               f"{narrow[0]} is computed in C int: slot index x resolution wraps beyond 2^31 seconds (a 68-year horizon, or an effort of decades), the "
+               "compiled path returns a date in the past where the Python fallback computes the right one",
+               key=f"R13.2|{pf.name}|int product")
 
     # ---------------------------------------------------------------- R13.3 tables
     for (fn, guard, call, pf, pm) in pairs:
